@@ -2,8 +2,12 @@ CONSTANTS
   Kinds = {"plain", "ecs", "cd", "ecscd"}
   Borns = {"msg", "wire"}
   Flags <- MCFlags
-  MaxSteps = 4
+  Shapes = {"v4", "v6", "zero", "empty"}
+  MaxSteps = 5
+  Births = TRUE
   LoseMarker = FALSE
+  EmptyUnmarked = FALSE
+  SubLosesMarker = FALSE
 INIT Init
 NEXT Next
 VIEW View
